@@ -628,25 +628,34 @@ pub fn marshal_rtcp_packets(packets: &[RtcpPacket]) -> RtpResult<Vec<u8>> {
                     body.resize(body.len() + pad - 1, 0);
                     body.push(pad as u8);
                 }
-                write_rtcp_packet(&mut out, RTCP_RTPFB_TWCC, RTCP_RTPFB, body);
+                write_rtcp_packet(&mut out, RTCP_RTPFB_TWCC, RTCP_RTPFB, body)?;
                 if pad != 0 {
                     out[start] |= 0x20;
                 }
+                Ok(())
             }
-        }
+        }?;
     }
     Ok(out)
 }
 
-fn write_rtcp_packet(out: &mut Vec<u8>, fmt: u8, packet_type: u8, mut body: Vec<u8>) {
+fn write_rtcp_packet(
+    out: &mut Vec<u8>,
+    fmt: u8,
+    packet_type: u8,
+    mut body: Vec<u8>,
+) -> RtpResult<()> {
     while !body.len().is_multiple_of(4) {
         body.push(0);
     }
-    let length = ((body.len() + 4) / 4).saturating_sub(1) as u16;
+    // The length field counts 32-bit words minus one, header included.
+    let length = u16::try_from(body.len() / 4)
+        .map_err(|_| RtpError::InvalidRtcp("RTCP packet too long for the length field"))?;
     out.push((RTP_VERSION << 6) | (fmt & 0x1F));
     out.push(packet_type);
     out.extend_from_slice(&length.to_be_bytes());
     out.extend_from_slice(&body);
+    Ok(())
 }
 
 fn parse_sender_report(fmt: u8, body: &[u8]) -> RtpResult<SenderReport> {
